@@ -1483,3 +1483,91 @@ package sftp
 //@   ensures f.handle == old(f.handle)
 // (reducer: the offset always equals the end of the last chunk that carried data -- or the initial offset --
 //  and exactly the received bytes are handed to the writer, in the order of the cur/next chain)
+
+// ---------------------------------------------------------------------------
+// C12: File keeps os.File's offset and closed-state semantics
+
+//@ func (*File).Read
+//@   property C12, C01
+//@   results n, err
+//@   requires fileOK(f) && f.offset >= 0 && f.offset <= 0x3fffffffffffffff && len(b) <= 0x3fffffffffffffff
+//@   assert before call (*File).readAt#1: arg2 == f.offset && arg1 == b && locked(&f.mu)
+//@   ensures f.offset == old(f.offset) + int64(n) && f.handle == old(f.handle)
+//@   ensures old(f.handle) == "" ==> err == os.ErrClosed && n == 0
+
+//@ func (*File).Write
+//@   property C12, C01
+//@   results n, err
+//@   requires fileOK(f) && f.offset >= 0 && f.offset <= 0x3fffffffffffffff && len(b) <= 0x3fffffffffffffff
+//@   assert before call (*File).writeAt#1: arg2 == f.offset && arg1 == b && locked(&f.mu)
+//@   ensures f.offset == old(f.offset) + int64(n) && f.handle == old(f.handle)
+//@   ensures old(f.handle) == "" ==> err == os.ErrClosed && n == 0 && ghost.lastID == old(ghost.lastID)
+
+//@ func (*File).ReadAt
+//@   property C12, C01
+//@   results n, err
+//@   requires fileOK(f) && off >= 0 && off <= 0x3fffffffffffffff && len(b) <= 0x3fffffffffffffff
+//@   assert before call (*File).readAt#1: arg2 == off && arg1 == b && rlocked(&f.mu)
+//@   ensures f.offset == old(f.offset) && f.handle == old(f.handle)
+//@   ensures old(f.handle) == "" ==> err == os.ErrClosed && n == 0
+
+//@ func (*File).WriteAt
+//@   property C12, C01
+//@   requires fileOK(f) && off >= 0 && off <= 0x3fffffffffffffff && len(b) <= 0x3fffffffffffffff
+//@   assert before call (*File).writeAt#1: arg2 == off && arg1 == b && rlocked(&f.mu)
+//@   ensures f.offset == old(f.offset) && f.handle == old(f.handle)
+//@   ensures old(f.handle) == "" ==> err == os.ErrClosed && written == 0 && ghost.lastID == old(ghost.lastID)
+
+//@ func (*File).Seek
+//@   property C12
+//@   results pos, err
+//@   requires fileOK(f) && f.offset >= 0
+//@   ensures f.offset >= 0 && f.handle == old(f.handle)
+//@   ensures old(f.handle) == "" ==> err == os.ErrClosed && pos == 0 && f.offset == old(f.offset)
+//@   ensures old(f.handle) != "" && whence == io.SeekStart && offset >= 0 ==> err == nil && f.offset == offset && pos == offset
+//@   ensures old(f.handle) != "" && whence == io.SeekStart && offset < 0 ==> err == os.ErrInvalid && f.offset == old(f.offset) && pos == old(f.offset)
+//@   ensures old(f.handle) != "" && whence == io.SeekCurrent && offset + old(f.offset) >= 0 ==> err == nil && f.offset == offset + old(f.offset) && pos == f.offset
+//@   ensures old(f.handle) != "" && whence == io.SeekCurrent && offset + old(f.offset) < 0 ==> err == os.ErrInvalid && f.offset == old(f.offset) && pos == old(f.offset)
+//@   ensures old(f.handle) != "" && whence == io.SeekEnd && err != nil ==> f.offset == old(f.offset) && pos == old(f.offset)
+//@   ensures old(f.handle) != "" && whence == io.SeekEnd && err == nil ==> pos == f.offset
+//@   ensures old(f.handle) != "" && whence != io.SeekStart && whence != io.SeekCurrent && whence != io.SeekEnd ==> err != nil && f.offset == old(f.offset)
+
+//@ func (*File).Close
+//@   property C12
+//@   requires fileOK(f)
+//@   assert before call (*Client).close#1: arg1 == old(f.handle) && f.handle == "" && locked(&f.mu)
+//@   ensures f.handle == "" && f.offset == old(f.offset)
+//@   ensures old(f.handle) == "" ==> result == os.ErrClosed && ghost.lastID == old(ghost.lastID)
+// (the handle is invalidated, under the write lock, before the CLOSE request is sent: no later request can carry it)
+
+//@ func (*File).Stat
+//@   property C12
+//@   results fi, err
+//@   requires fileOK(f)
+//@   ensures f.offset == old(f.offset) && f.handle == old(f.handle)
+//@   ensures old(f.handle) == "" ==> err == os.ErrClosed && ghost.lastID == old(ghost.lastID)
+
+//@ func (*File).Truncate
+//@   property C12
+//@   requires fileOK(f)
+//@   ensures f.offset == old(f.offset) && f.handle == old(f.handle)
+//@   ensures old(f.handle) == "" ==> result == os.ErrClosed && ghost.lastID == old(ghost.lastID)
+
+//@ func (*File).Chmod
+//@   property C12
+//@   requires fileOK(f)
+//@   ensures f.offset == old(f.offset) && f.handle == old(f.handle)
+//@   ensures old(f.handle) == "" ==> result == os.ErrClosed && ghost.lastID == old(ghost.lastID)
+
+//@ func (*File).Chown
+//@   property C12
+//@   requires fileOK(f)
+//@   ensures f.offset == old(f.offset) && f.handle == old(f.handle)
+//@   ensures old(f.handle) == "" ==> result == os.ErrClosed && ghost.lastID == old(ghost.lastID)
+
+//@ func (*File).stat
+//@   property C12, C20
+//@   results fi, err
+//@   requires fileOK(f)
+//@   ensures err == nil ==> fi != nil
+//@   ensures f.offset == old(f.offset) && f.handle == old(f.handle)
